@@ -550,6 +550,24 @@ func (j jar) addTo(r *http.Request) {
 	}
 }
 
+// addToLines: the same cookies, spread over several Cookie header lines (`perLine` cookies each, in reverse name order, so that a
+// chunk cookie with index 0 is not on the first line) - what a client or a proxy translating HTTP/2 fields may send; net/http and
+// the session store read every line
+func (j jar) addToLines(r *http.Request, perLine int) {
+	names := make([]string, 0, len(j))
+	for k := range j {
+		names = append(names, k)
+	}
+	sort.Sort(sort.Reverse(sort.StringSlice(names)))
+	for i := 0; i < len(names); i += perLine {
+		var parts []string
+		for _, k := range names[i:min(i+perLine, len(names))] {
+			parts = append(parts, k+"="+j[k])
+		}
+		r.Header.Add("Cookie", strings.Join(parts, "; "))
+	}
+}
+
 func (j jar) clone() jar {
 	c := jar{}
 	for k, v := range j {
